@@ -459,6 +459,52 @@ def quote_cases(tier: str):
     return cases
 
 
+class Tape:
+    """model lines / expected results / index, kept as JSON strings so that the heap the cyclic GC has to walk stays small
+    (`drop` needs a full gc.collect() to let the weak cache entry of a Submodel — which is part of a reference cycle — die)."""
+
+    def __init__(self):
+        self.lines: List[str] = []
+        self.expect: List[str] = []
+        self.index: List[Tuple[int, int]] = []
+        self.ops: List[str] = []
+
+    def add(self, line, exp, idx):
+        self.lines.append(json.dumps(line)); self.expect.append(json.dumps(exp)); self.index.append(idx)
+
+    def history(self, ops, res) -> int:
+        hi = len(self.ops)
+        self.ops.append(json.dumps(ops))
+        self.add(["reset"], ["reset"], (hi, -1))
+        for oi, (op, r) in enumerate(zip(ops, res)):
+            self.add(model_line(op), r, (hi, oi))
+        return hi
+
+    def run(self) -> List[C.Disagreement]:
+        out = C.run_model("C16", (json.loads(l) for l in self.lines))
+        if len(out) != len(self.expect):
+            return [C.Disagreement("driver output length", None, len(out), len(self.expect))]
+        dis: List[C.Disagreement] = []
+        seen = set()
+        for k, (m, rs) in enumerate(zip(out, self.expect)):
+            r = json.loads(rs)
+            hi, oi = self.index[k]
+            if hi >= 0 and oi >= 0:
+                m = canon_model(m)
+            if m != r and hi not in seen:
+                seen.add(hi)
+                if hi >= 0:
+                    ops = json.loads(self.ops[hi])
+                    part = "outcome" if m[0] != r[0] else ("request log" if m[1] != r[1] else "state")
+                    dis.append(C.Disagreement(f"{part} after {ops[oi]}", ops[: oi + 1],
+                                              m[2] if part == "state" else m[:2], r[2] if part == "state" else r[:2]))
+                else:
+                    dis.append(C.Disagreement(f"line {self.lines[k]}", ["line", json.loads(self.lines[k])], m, r))
+                if len(dis) >= 5:
+                    break
+        return dis
+
+
 def correspond(ctx: C.Ctx, cov: C.Coverage) -> List[C.Disagreement]:
     import urllib.parse
     from props import c16_server as S
@@ -470,18 +516,13 @@ def correspond(ctx: C.Ctx, cov: C.Coverage) -> List[C.Disagreement]:
                 "request log (request + response) and the complete state (revision store, cache, every live object's id/payload/source, "
                 "server documents with revision counters) are compared with the model. non-trivial = the history has an external write "
                 "between a read/add and a later commit/delete of the same id, or an injected fault; distinct = by concrete op list")
+    tape = Tape()
     impl = Impl("pool")
-    lines: List[Any] = []
-    expect: List[Any] = []
-    index: List[Tuple[int, int]] = []
-    all_ops: List[List[Any]] = []
     try:
         for hi, (ids, macros, fin) in enumerate(hist):
             ops, res = run_history(impl, ids, macros, fin)
-            all_ops.append(ops)
-            lines.append(["reset"]); expect.append(["reset"]); index.append((hi, -1))
-            for oi, (op, r) in enumerate(zip(ops, res)):
-                lines.append(model_line(op)); expect.append(r); index.append((hi, oi))
+            tape.history(ops, res)
+            for op, r in zip(ops, res):
                 cov.hit(op[0] + ("!" if r[0][0] == "raise" or (r[0][0] == "handles" and r[0][2]) else ""))
                 if op[0] in PLANNED:
                     for f in op[-1]:
@@ -493,7 +534,7 @@ def correspond(ctx: C.Ctx, cov: C.Coverage) -> List[C.Disagreement]:
     finally:
         impl.close()
     # loopback tier: the same comparison through real sockets
-    lb_hist = []
+    n_lb = 0
     if ctx.tier == "thorough":
         lrng = random.Random(f"C16:lb:{ctx.seed}")
         impl = Impl("loopback")
@@ -504,65 +545,40 @@ def correspond(ctx: C.Ctx, cov: C.Coverage) -> List[C.Disagreement]:
                 ids = lrng.sample(IDS_WIDE, n_ids)
                 macros = random_macros(lrng, n_ids, lrng.randint(3, 14), 0.0)
                 if n % 2:
-                    macros = [(m, ([list(lrng.choice(realisable))] if p == [] and lrng.random() < 0.25 else [])) for m, p in macros]
+                    macros = [(m, ([list(lrng.choice(realisable))] if lrng.random() < 0.25 else [])) for m, p in macros]
                 ops, res = run_history(impl, ids, macros, True)
-                lb_hist.append(ops)
-                hi = len(all_ops)
-                all_ops.append(ops)
-                lines.append(["reset"]); expect.append(["reset"]); index.append((hi, -1))
-                for oi, (op, r) in enumerate(zip(ops, res)):
-                    lines.append(model_line(op)); expect.append(r); index.append((hi, oi))
+                tape.history(ops, res)
+                n_lb += 1
                 cov.evaluations += 1
                 cov.hit("loopback-history")
         finally:
             impl.close()
-    # quoting: model vs urllib vs the fake server's transcription
+    # quoting: model vs the fake server's transcription (and that vs urllib)
     qc = quote_cases(ctx.tier)
     for b in qc:
-        lines.append(["quote", b]); index.append((-1, 0))
-        expect.append(urllib.parse.quote(bytes(b).decode("utf-8", "surrogateescape"), safe="", errors="surrogateescape")
-                      if False else S.quote(tuple(b)))
-        lines.append(["unquote", S.quote(tuple(b))]); expect.append(list(S.unquote(S.quote(tuple(b))))); index.append((-1, 1))
+        q = S.quote(tuple(b))
+        tape.add(["quote", b], q, (-1, 0))
+        tape.add(["unquote", q], list(S.unquote(q)), (-1, 1))
     for s in IDS_WIDE:
         if S.quote(tuple(idb(s))) != urllib.parse.quote(s, safe=""):
             return [C.Disagreement("fake server quote vs urllib.parse.quote", s, S.quote(tuple(idb(s))), urllib.parse.quote(s, safe=""))]
-    for raw in ["%zz", "%4", "%", "a%2fb", "%41%", "%%41", "ÿ", "%C3%A4"]:
-        lines.append(["unquote", raw]); expect.append(list(S.unquote(raw))); index.append((-1, 2))
+    for raw in ["%zz", "%4", "%", "a%2fb", "%41%", "%%41", "\u00ff", "%C3%A4", "\u0100a"]:
+        tape.add(["unquote", raw], list(S.unquote(raw)), (-1, 2))
     # classification table: model vs do_request driven directly
     ct = classification_cases()
     impl = Impl("pool")
     try:
         for (m, f) in ct:
-            lines.append(["classify", m, f[:-1] if f[0] == "status" else ["fail", f[1]]])
-            expect.append(impl_classify(impl, m, f)); index.append((-2, 0))
+            tape.add(["classify", m, f[:-1] if f[0] == "status" else ["fail", f[1]]], impl_classify(impl, m, f), (-2, 0))
             cov.hit("classify")
     finally:
         impl.close()
     cov.extra.update({"exhaustive_histories": n_ex, "fault_grid_histories": n_grid, "random_histories": len(hist) - n_ex - n_grid,
-                      "loopback_histories": len(lb_hist), "classification_cases": len(ct), "quote_cases": len(qc),
+                      "loopback_histories": n_lb, "classification_cases": len(ct), "quote_cases": len(qc),
                       "neutral_zones": NEUTRAL})
     cov.exhaustive = True
-    cov.samples = [all_ops[min(n_ex - 1, len(all_ops) - 1)], all_ops[n_ex + 7] if len(all_ops) > n_ex + 7 else None, all_ops[-1][:12]]
-    out = C.run_model("C16", lines)
-    if len(out) != len(expect):
-        return [C.Disagreement("driver output length", None, len(out), len(expect))]
-    dis: List[C.Disagreement] = []
-    seen = set()
-    for k, (m, r) in enumerate(zip(out, expect)):
-        hi, oi = index[k]
-        if hi >= 0 and oi >= 0:
-            m = canon_model(m)
-        if m != r and hi not in seen:
-            seen.add(hi)
-            if hi >= 0:
-                part = "outcome" if m[0] != r[0] else ("request log" if m[1] != r[1] else "state")
-                dis.append(C.Disagreement(f"{part} after {all_ops[hi][oi]}", all_ops[hi][: oi + 1],
-                                          m[2] if part == "state" else m[:2], r[2] if part == "state" else r[:2]))
-            else:
-                dis.append(C.Disagreement(f"line {lines[k]}", ["line", lines[k]], m, r))
-            if len(dis) >= 5:
-                break
-    return dis
+    cov.samples = [json.loads(tape.ops[n_ex - 1]), json.loads(tape.ops[n_ex + 7]), json.loads(tape.ops[n_ex + n_grid + 3])[:14]]
+    return tape.run()
 
 
 def classification_cases():
